@@ -231,18 +231,58 @@ def statement_fields() -> set[str]:
 
 
 def config_memoisation(ctx, L) -> list[dict]:
-    """_load_config/_get_config of each rule: does it store the parsed config on the instance without keying by language?"""
+    """Every method of every rule class (own and inherited src.* methods): does it store a language-dependent parsed
+    configuration (the result of load_linter_config(...) or <Config>.from_dict(..., language), directly, through a local
+    name or inside a tuple/list) on the rule instance without any test on the file's language?  The rule instance lives
+    for the whole run and sees files of several languages."""
     from ..linters import ABSTRACT_BASES
 
+    def is_loader(call: ast.Call) -> bool:
+        nm = call_name(call)
+        if nm == "load_linter_config":
+            return True
+        if nm == "from_dict" and (len(call.args) >= 2 or any(k.arg == "language" for k in call.keywords)):
+            return True
+        return nm in ("_load_config", "_get_config", "_try_load_production_config", "_try_load_test_config") and isinstance(call.func, ast.Attribute) and isinstance(call.func.value, ast.Name) and call.func.value.id == "self"
+
     out = []
+    seen = set()
     for r in L.rules:
-        for nm in ("_load_config", "_get_config"):
-            f = ctx.repo.find_method(r.qual, nm)
-            if f is None or f.cls is None or (f.cls.qual in ABSTRACT_BASES and nm == "_load_config"):
+        for cq in ctx.repo.mro(r.qual):
+            c = ctx.repo.classes.get(cq)
+            if c is None or not cq.startswith("src."):
                 continue
-            stores = [n for n in ast.walk(f.node) if isinstance(n, (ast.Assign, ast.AugAssign, ast.AnnAssign)) and any(isinstance(t, ast.Attribute) and isinstance(t.value, ast.Name) and t.value.id == "self" for t in (n.targets if isinstance(n, ast.Assign) else [n.target]))]
-            keyed = any(isinstance(x, ast.Attribute) and x.attr == "language" for n in ast.walk(f.node) if isinstance(n, ast.If) for x in ast.walk(n.test))
-            out.append(dict(rule=r.short, func=f, name=nm, bad=bool(stores) and not keyed, store=norm(stores[0]) if stores else ""))
+            for nm, f in sorted(c.methods.items()):
+                if (r.short, nm) in seen:
+                    continue
+                seen.add((r.short, nm))
+                tainted: set[str] = set()
+                stores = []
+                changed = True
+                while changed:
+                    changed = False
+                    for n in ast.walk(f.node):
+                        if not isinstance(n, (ast.Assign, ast.AnnAssign)) or n.value is None:
+                            continue
+                        rhs_t = any((isinstance(x, ast.Call) and is_loader(x)) or (isinstance(x, ast.Name) and x.id in tainted) for x in ast.walk(n.value))
+                        if not rhs_t:
+                            continue
+                        for t in (n.targets if isinstance(n, ast.Assign) else [n.target]):
+                            for el in (t.elts if isinstance(t, (ast.Tuple, ast.List)) else [t]):
+                                if isinstance(el, ast.Name) and el.id not in tainted:
+                                    tainted.add(el.id)
+                                    changed = True
+                                base = el
+                                while isinstance(base, ast.Subscript):
+                                    base = base.value
+                                if isinstance(base, ast.Attribute) and isinstance(base.value, ast.Name) and base.value.id == "self" and n not in stores:
+                                    stores.append(n)
+                keyed = any((isinstance(x, ast.Attribute) and x.attr == "language") or (isinstance(x, ast.Name) and x.id in ("language", "lang")) for n in ast.walk(f.node) if isinstance(n, (ast.If, ast.IfExp, ast.Subscript))
+                            for x in ast.walk(n.test if isinstance(n, (ast.If, ast.IfExp)) else n.slice))
+                if nm in ("_load_config", "_get_config") or stores:
+                    if c.qual in ABSTRACT_BASES and not stores:
+                        continue
+                    out.append(dict(rule=r.short, func=f, name=nm, bad=bool(stores) and not keyed, store=norm(stores[0]) if stores else ""))
     return out
 
 
@@ -295,4 +335,80 @@ def whole_tree_finders(ctx) -> list[dict]:
         walks = [n for n in ast.walk(f.node) if isinstance(n, ast.Call) and dotted(n.func) == "ast.walk" and n.args and isinstance(n.args[0], ast.Name) and n.args[0].id == params[0]]
         visits = [n for n in ast.walk(f.node) if isinstance(n, ast.Call) and (call_name(n) in ("visit", "generic_visit") or (call_name(n).startswith("find_all_") and n.args and isinstance(n.args[0], ast.Name) and n.args[0].id == params[0] and not (isinstance(n.func, ast.Attribute) and call_name(n) == f.name)))]
         out.append(dict(func=f.qual.replace("src.", "", 1), loc=f.loc, ok=bool(walks or visits), detail="ast.walk(tree)" if walks else "NodeVisitor" if visits else "hand-written descent: nodes below unvisited fields (function bodies, if/try blocks) are never found"))
+    return out
+
+
+MODULE_MUT = {"append", "extend", "add", "update", "setdefault", "insert", "remove", "discard", "pop", "popitem", "clear", "appendleft"}
+
+
+def module_state_mutations(ctx) -> tuple[int, list[dict]]:
+    """Module-level names of src.* modules that a function re-binds (`global X`), mutates through a container method or
+    assigns into (X[k] = v): state that lives as long as the process.  Returns (#module-level names examined, mutations)."""
+    out = []
+    n_glob = 0
+    for m in sorted(ctx.repo.modules.values(), key=lambda x: x.name):
+        if not m.name.startswith("src"):
+            continue
+        tree = ast.parse(m.src)
+        glob = set()
+        for st in tree.body:
+            if isinstance(st, ast.Assign):
+                glob |= {t.id for t in st.targets if isinstance(t, ast.Name)}
+            elif isinstance(st, ast.AnnAssign) and isinstance(st.target, ast.Name):
+                glob.add(st.target.id)
+        n_glob += len(glob)
+        if not glob:
+            continue
+        for fn in ast.walk(tree):
+            if not isinstance(fn, (ast.FunctionDef, ast.AsyncFunctionDef)):
+                continue
+            gl = {n for x in ast.walk(fn) if isinstance(x, ast.Global) for n in x.names}
+            locs = {a.arg for a in fn.args.posonlyargs + fn.args.args + fn.args.kwonlyargs}
+            for x in ast.walk(fn):
+                tg = []
+                if isinstance(x, ast.Assign):
+                    tg = x.targets
+                elif isinstance(x, (ast.AnnAssign, ast.AugAssign)):
+                    tg = [x.target]
+                elif isinstance(x, (ast.For, ast.comprehension)):
+                    tg = [x.target]
+                elif isinstance(x, ast.NamedExpr):
+                    tg = [x.target]
+                for t in tg:
+                    for el in ast.walk(t):
+                        if isinstance(el, ast.Name) and isinstance(el.ctx, ast.Store):
+                            if el.id in gl and el.id in glob:
+                                out.append(dict(module=m, func=fn.name, name=el.id, how="re-bound through `global`", line=x.lineno if hasattr(x, "lineno") else fn.lineno))
+                            elif el.id not in gl:
+                                locs.add(el.id)
+            for x in ast.walk(fn):
+                if isinstance(x, ast.Call) and isinstance(x.func, ast.Attribute) and x.func.attr in MODULE_MUT and isinstance(x.func.value, ast.Name) and x.func.value.id in glob and x.func.value.id not in locs:
+                    out.append(dict(module=m, func=fn.name, name=x.func.value.id, how=f".{x.func.attr}()", line=x.lineno))
+                if isinstance(x, (ast.Assign, ast.AugAssign, ast.Delete)):
+                    for t in (x.targets if isinstance(x, (ast.Assign, ast.Delete)) else [x.target]):
+                        if isinstance(t, ast.Subscript) and isinstance(t.value, ast.Name) and t.value.id in glob and t.value.id not in locs:
+                            out.append(dict(module=m, func=fn.name, name=t.value.id, how="item assignment", line=x.lineno))
+    return n_glob, out
+
+
+def ancestor_walks(f: Func) -> list[dict]:
+    """`cur = X.parent; while cur is not None: ...; cur = cur.parent` loops of a function.  For each: the node kinds that
+    end it with acceptance (`return True`) and every other way out of the loop body (return of anything else, break):
+    an enclosing-context test ("is this literal anywhere inside a const item?") must have none of the latter."""
+    out = []
+    for loop in [n for n in ast.walk(f.node) if isinstance(n, ast.While)]:
+        steps = [n for n in ast.walk(loop) if isinstance(n, ast.Assign) and isinstance(n.value, ast.Attribute) and n.value.attr == "parent" and isinstance(n.targets[0], ast.Name)
+                 and isinstance(n.value.value, ast.Name) and n.value.value.id == n.targets[0].id]
+        if not steps:
+            continue
+        var = steps[0].targets[0].id
+        to_root = norm(loop.test) in (f"{var} is not None", var, f"{var} != None")
+        early = [n for n in ast.walk(loop) if isinstance(n, ast.Break) or (isinstance(n, ast.Return) and not (isinstance(n.value, ast.Constant) and n.value.value is True))]
+        # leaving at the root node kind itself is not "early": nothing is above it
+        root_ifs = [n for n in ast.walk(loop) if isinstance(n, ast.If) and isinstance(n.test, ast.Compare) and len(n.test.ops) == 1 and isinstance(n.test.ops[0], (ast.Eq, ast.In))
+                    and isinstance(n.test.left, ast.Attribute) and n.test.left.attr == "type"
+                    and all(isinstance(c, ast.Constant) and c.value in ("source_file", "program") for cmp in n.test.comparators for c in (cmp.elts if isinstance(cmp, (ast.Tuple, ast.Set, ast.List)) else [cmp]))]
+        early = [e for e in early if not any(e in i.body for i in root_ifs)]
+        cond_steps = [s for s in steps if not any(s is st for st in loop.body)]
+        out.append(dict(loop=loop, var=var, to_root=to_root, early=early, conditional_step=bool(cond_steps) and len(cond_steps) == len(steps)))
     return out
